@@ -83,7 +83,18 @@ Scripts ==
   \cup { Scenario("var-" \o ToString(n) \o "-" \o ToString(v), 500 + n, <<IF v = 0 THEN n ELSE 2, IF v = 1 THEN n ELSE 5, IF v = 2 THEN n ELSE 11>>, <<2, 0, 1>>, FALSE, 0)
            : n \in (IF Full THEN 0..255 ELSE {0, 1, 7, 8, 9, 12, 20, 30, 64, 129, 255}), v \in 0..2 }
   \cup { Scenario("varfb-" \o ToString(n), 600 + n, <<0, 0, 0>>, <<n, 9, 20>>, FALSE, 0) : n \in {1, 8, 20, 30} }
-AllScripts == Scripts
+\* two enumerations on one session with the BMC answering differently in between (the standard entity IDs refused or empty
+\* at first and answered later, and the reverse): each result is decided by what that enumeration was told
+Twice(id, x, y) == [x EXCEPT !.id = id, !.steps = x.steps \o y.steps]
+TwiceSet ==
+  UNION { LET refused == ScenarioE("x", 800 + p, <<3, 1, 2>>, <<4, 2, 5>>, 4, p)
+              empty == ScenarioE("x", 810 + p, <<0, 0, 0>>, <<4, 2, 5>>, 0, p)
+              one == ScenarioE("x", 820 + p, <<3, 1, 2>>, <<4, 2, 5>>, 2, p)
+              answered == ScenarioE("x", 830 + p, <<3, 1, 2>>, <<4, 2, 5>>, 0, p) IN
+          { Twice("twice-refused-answered-" \o ToString(p), refused, answered), Twice("twice-empty-answered-" \o ToString(p), empty, answered),
+            Twice("twice-one-answered-" \o ToString(p), one, answered), Twice("twice-answered-refused-" \o ToString(p), answered, refused),
+            Twice("twice-answered-empty-" \o ToString(p), answered, empty) } : p \in {1, 3, 0} }
+AllScripts == Scripts \cup TwiceSet
 Chosen == IF Family = "odd" THEN OddSet ELSE AllScripts
 Header == [header |-> TRUE, family |-> "dcmi", defs |-> SessionDefs(S) @@ [ReqPlainT |-> ReqPlain(S)], stable |-> <<"SIK", "K1", "K2">>,
            session |-> SessionRecipes(S), prefixes |-> [hs |-> HandshakeSteps(S)]]
